@@ -85,7 +85,7 @@ void run_buf()
     producers.emplace_back([=]() {
       for (int k = 0; k < p->nitems[pi]; k++) {
         uint32_t v = (uint32_t)((pi + 1) << 16 | (k + 1));
-        bool mv = (p->move_mask[pi] >> k) & 1;
+        bool mv = (p->move_mask[pi] >> (k & 15)) & 1;
         int op = c12_op_begin(mv ? C12_PUSH_MOVE : C12_PUSH_COPY, v);
         {
           SimTag t(SIM_TAG_SUT);
